@@ -20,6 +20,23 @@ DT = Poly.sym("DT")
 ONE = Poly.const(1)
 
 
+def _same_parameter_reparsed(d, name: str) -> bool:
+    """The definition re-binds parameter `name` to its own parsed value: an element of the
+    tuple an input parser returns, or an entry of a container looked up by the parameter's
+    own name (`parsed["num_steps"][0]`)."""
+    if d.value is None:
+        return False
+    if d.sel and d.sel[0][0] == "idx" and isinstance(d.value, (ast.Call, ast.Name)):
+        return True
+    if not d.sel:
+        v = d.value
+        while isinstance(v, ast.Subscript):
+            if isinstance(v.slice, ast.Constant) and v.slice.value == name:
+                return True
+            v = v.value
+    return False
+
+
 class Tags:
     """Step tags of times and state lists inside one function.
 
@@ -77,12 +94,25 @@ class Tags:
                     return self.env[x.id]
                 ds = self._name_defs(x.id, nid)
                 real = [d for d in ds if d.sel != (("param",),)]
+                if real and x.id in self.u.params and roles.role_of(x) == "NUM_STEPS" and all(
+                        _same_parameter_reparsed(d, x.id) for d in real):
+                    # a parameter re-bound from the tuple its own input parser returns
+                    return Poly.sym("N")
                 if real:
                     forms = set()
                     for d in real:
                         if d.sel and d.sel[0][0] == "iter":
-                            # loop variable over range(...) is the step itself
+                            # the loop variable of `for k in range(<number of steps>)` is the
+                            # step itself, whatever it is called
                             r = roles.role_of(x)
+                            it = d.value
+                            if r != "STEP" and len(d.sel) == 1 and isinstance(it, ast.Call) \
+                                    and dotted(it.func) == "range" and len(it.args) == 1 \
+                                    and depth < 6:
+                                bound = self.form(it.args[0], d.node, depth + 1)
+                                a0 = it.args[0]
+                                if bound in (Poly.sym("N"), Poly.sym("N") + ONE):
+                                    r = "STEP"
                             forms.add(Poly.sym(r) if r == "STEP" else None)
                             continue
                         if d.value is None or d.sel:
